@@ -211,4 +211,68 @@ theorem merge_push_right (how : How) (on cs pr cl cr : List String) (rl rr : Lis
     · simp [hg]
   · simp [hc]
 
+theorem lookO_self (og : List (String × Bool × String)) (hnd : (og.map (·.1)).Nodup) :
+    ∀ o ∈ og, lookO og o.1 = some o.2 := by
+  induction og with
+  | nil => intro o ho; simp at ho
+  | cons x xs ih =>
+    intro o ho
+    simp only [List.map_cons, List.nodup_cons] at hnd
+    simp only [List.mem_cons] at ho
+    unfold lookO
+    simp only [List.find?_cons]
+    rcases ho with rfl | ho
+    · simp
+    · have hne : (x.1 == o.1) = false := by
+        cases hb : (x.1 == o.1) with
+        | false => rfl
+        | true =>
+          have : x.1 = o.1 := by simpa using hb
+          exact absurd (List.mem_map.mpr ⟨o, ho, this.symm⟩) hnd.1
+      simp only [hne]
+      exact ih hnd.2 o ho
+
+theorem mergedRow_fix (og : List (String × Bool × String)) (cl cr : List String) (lr : List Cell) (rr : Option (List Cell))
+    (hnd : (og.map (·.1)).Nodup) :
+    (og.map (·.1)).map (getCell (og.map (·.1)) (mergedRow og cl cr lr rr)) = mergedRow og cl cr lr rr := by
+  rw [mergedRow_eq, List.map_map]
+  apply List.map_congr_left
+  intro o ho
+  simp only [Function.comp_def]
+  rw [getCell_merged og (cellAt cl cr lr rr) o.1, lookO_self og hnd o ho]
+  rfl
+
+theorem mergedRow_fix' (og : List (String × Bool × String)) (cl cr : List String) (lr : List Cell) (rr : Option (List Cell))
+    (hnd : (og.map (·.1)).Nodup) :
+    og.map (fun x => getCell (og.map (·.1)) (mergedRow og cl cr lr rr) x.1) = mergedRow og cl cr lr rr := by
+  have := mergedRow_fix og cl cr lr rr hnd
+  rw [List.map_map] at this
+  exact this
+
+/-- `merge(x, y)[cs] = merge(x, y)` when `cs` is exactly its (duplicate-free) column list -/
+theorem merge_drop (how : How) (on cl cr : List String) (rl rr : List (RId × List Cell))
+    (hnd : ((origins on cl cr).map (·.1)).Nodup) :
+    (mergeV how on (.frame cl rl) (.frame cr rr)).bind (projV ((origins on cl cr).map (·.1))) =
+    mergeV how on (.frame cl rl) (.frame cr rr) := by
+  simp only [mergeV]
+  by_cases hg : (hasCols cl on && hasCols cr on) = true
+  · simp only [hg, if_true, Option.bind_some, projV, hasCols_self, Option.some.injEq, Val2.frame.injEq, true_and]
+    rw [List.map_flatMap]
+    apply flatMap_congr_mem
+    intro l _
+    simp only [mergeOne]
+    split
+    · cases how
+      · simp
+      · simp only [List.map_cons, List.map_nil, List.map_map, Function.comp_def]
+        rw [mergedRow_fix' _ cl cr l.2 none hnd]
+    · rw [List.map_map]
+      conv => rhs; rw [← List.map_id (List.filter _ rr |>.map _)]
+      rw [List.map_map]
+      apply List.map_congr_left
+      intro r _
+      simp only [Function.comp_def, id, List.map_map]
+      rw [mergedRow_fix' _ cl cr l.2 (some r.2) hnd]
+  · simp [hg]
+
 end Dask.RelExpr2
